@@ -293,3 +293,12 @@ _EDITS9 = [
 for _k, _a, _b in _EDITS9:
     assert _a in TEXTS[_k][0], (_k, _a[:40], TEXTS[_k][0][:200])
     TEXTS[_k] = (TEXTS[_k][0].replace(_a, _b, 1), TEXTS[_k][1])
+
+_EDITS10 = [
+ ("C02", "Kernel-checked theorems", "Kernel-checked theorems (plus an `unwind` stream: user code that panics inside a tracing call and is caught by the caller -- property closures of every entry point, "
+  "span / event names whose conversion panics, a panic unwinding through a scope -- must leave the trace whole, the parents right and the local context restored; it found and now guards defect F14)"),
+ ("C11", "Kernel-checked theorems", "Kernel-checked theorems (plus the `unwind` stream: a name conversion or property closure that panics inside a call must not move the local context)"),
+]
+for _k, _a, _b in _EDITS10:
+    assert _a in TEXTS[_k][0], (_k, _a[:40], TEXTS[_k][0][:120])
+    TEXTS[_k] = (TEXTS[_k][0].replace(_a, _b, 1), TEXTS[_k][1])
